@@ -18,6 +18,33 @@ Definition NetInst (s0 : state) (n x : id) : Prop :=
 Definition Closed (s0 : state) (n : id) : Prop :=
   forall x e, NetInst s0 n x -> iref s0 x = Some e -> exists l, In l (kids s0 RLibs n) /\ In e (kids s0 RDefs l).
 
+(* the top-instance stage of Netlist._clone and the memo it ends with *)
+Definition top_stage (s3 : state) (m2 : memo) (n n' : id) : R * memo :=
+  match top s3 n with
+  | None => (ret s3, m2)
+  | Some t =>
+      match mget m2 t with
+      | Some t' => (ret (s3 <| top ::= fun f => upd f n' (Some t') |>), m2)
+      | None =>
+          let '((s4, m4), t') := inst_clone1 (s3, m2) t in
+          (inst_rr_def m4 s4 t' >>= fun s5 =>
+           let s6 := match iref s5 t' with
+                     | Some e => match mget m4 e with Some e' => set_iref s5 t' (Some e') | None => s5 end
+                     | None => s5 end in
+           rekey_all m4 s6 t' >>= fun s7 =>
+           ret (s7 <| top ::= fun f => upd f n' (Some t') |>), m4)
+      end
+  end.
+
+Definition netlist_memo (s : state) (n : id) : memo :=
+  let '(s1, n') := clone_alloc s KNetlist in
+  let s1 := copy_data s1 n n' in
+  let '(((s2, m2), libs'), e) := libs_clone1 (kids s1 RLibs n) (s1, [(n, n')]) in
+  match e with
+  | Some x => m2
+  | None => snd (top_stage (set_kids s2 RLibs n' libs') m2 n n')
+  end.
+
 (* what the proof knows about the result: sQ is the state before the final filter of the reference sets *)
 Record NetFacts (s0 : state) (n : id) (sF sQ : state) (M : memo) (n' : id) (libs' : list id) : Prop := mkNF {
   nf_n' : n' = next s0;
@@ -35,7 +62,8 @@ Record NetFacts (s0 : state) (n : id) (sF sQ : state) (M : memo) (n' : id) (libs
   nf_fd : forall d d', In (d, d') M -> kind_of s0 d = Some KDefinition -> FinD M sQ d' /\ In d' (flat_map (kids sQ RDefs) libs');
   nf_hd : forall y, In y (flat_map (kids sQ RDefs) libs') -> exists d, In (d, y) M /\ kind_of s0 d = Some KDefinition;
   nf_cl : forall x x' e, In (x, x') M -> kind_of s0 x = Some KInstance -> iref s0 x = Some e -> In e (map fst M) /\ kind_of s0 e = Some KDefinition;
-  nf_keys : forall x x', In (x, x') M -> x = n \/ In x (flat_map (lib_objects s0) (kids s0 RLibs n)) \/ top s0 n = Some x
+  nf_keys : forall x x', In (x, x') M -> x = n \/ In x (flat_map (lib_objects s0) (kids s0 RLibs n)) \/ top s0 n = Some x;
+  nf_memo : M = netlist_memo s0 n
 }.
 
 Lemma clone_netlist_facts s0 n :
@@ -112,7 +140,9 @@ Proof.
       split; [intros e H; rewrite Hm4; right; exact H|]. split; [cbn; rewrite K7, K5; reflexivity|]. split; [cbn; rewrite P7, P5; reflexivity|].
       intros x x' H Hno. rewrite Hm4 in H. destruct H as [H|H]; [|contradiction]. injection H as <- <-. split; [reflexivity|].
       cbn. rewrite I7, Nat.eqb_refl. reflexivity. }
-  clearbody rtop. destruct rtop as [[s8x e8] Mx]. cbn [fst snd] in Hrt. cbn iota beta.
+  assert (HM : snd rtop = netlist_memo s0 n).
+  { unfold netlist_memo. rewrite Ea. cbn zeta. change (copy_data sa n n') with s1. rewrite Eks. fold ls. rewrite Eb. reflexivity. }
+  clearbody rtop. destruct rtop as [[s8x e8] Mx]. cbn [fst snd] in Hrt, HM. cbn iota beta.
   destruct e8 as [ex|]; [cbn; discriminate|]. destruct (Hrt eq_refl) as [s8 [M [Eq [Y8 [Sb8 [K8 [P8 New8]]]]]]]. injection Eq as -> ->. clear Hrt.
   cbn [bindR].
   set (s8' := match top s8 n' with Some t' => s8 <| istop ::= fun f => upd f t' true |> | None => s8 end).
@@ -277,11 +307,11 @@ Record NetStruct (s0 : state) (n : id) (sF : state) (n' : id) (M : memo) : Prop 
   ns_wpins : forall w w', img M w w' -> kind_of s0 w = Some KWire -> map_opt (mpinF s0 M) (wpins s0 w) = Some (wpins sF w')
 }.
 
-Theorem clone_netlist_struct s0 n :
+Theorem clone_netlist_struct_m s0 n :
   UF s0 -> StartOK s0 -> (forall x e, iref s0 x = Some e -> kind_of s0 e = Some KDefinition) ->
   kind_of s0 n = Some KNetlist -> (forall t, top s0 n = Some t -> kind_of s0 t = Some KInstance) -> Closed s0 n ->
   snd (fst (clone_netlist s0 n)) = None ->
-  exists M, NetStruct s0 n (fst (fst (clone_netlist s0 n))) (snd (clone_netlist s0 n)) M.
+  NetStruct s0 n (fst (fst (clone_netlist s0 n))) (snd (clone_netlist s0 n)) (netlist_memo s0 n).
 Proof.
   intros U0 HS HRD Hkn Htop Hcl Hok. pose proof U0 as [I0 [T0 [F0 [FT0 K0]]]]. pose proof (inv_a _ I0) as I1.
   pose proof (clone_netlist_inv s0 n U0 HS HRD Hkn Htop Hcl Hok) as HInv.
@@ -301,7 +331,7 @@ Proof.
   { intros x x' e H Hk Er. unfold rk. rewrite (nf_fx _ _ _ _ _ _ _ NF x x' H Hk), Er. cbn.
     destruct (nf_cl _ _ _ _ _ _ _ NF x x' e H Hk Er) as [He _]. apply assoc_In_fst in He as [e' He']. fold (mget M e) in He'. rewrite He'.
     apply Nat.leb_le. apply (st_rng _ _ _ T e e' (mget_in _ _ _ He')). }
-  exists M. constructor.
+  rewrite <- (nf_memo _ _ _ _ _ _ _ NF). constructor.
   - apply (st_fun _ _ _ T).
   - apply (st_inj _ _ _ T).
   - intros a b H. destruct (st_rng _ _ _ T a b H) as [A [B _]]. split; [exact A|]. split; [exact B|].
@@ -352,6 +382,14 @@ Proof.
     assert (Hkx : kind_of s0 x = Some KInstance) by (apply (ft_r _ FT0); rewrite H0; discriminate).
     rewrite (Hflag x x' d (mget_in _ _ _ Ex) Hkx H0). reflexivity.
 Qed.
+
+Theorem clone_netlist_struct s0 n :
+  UF s0 -> StartOK s0 -> (forall x e, iref s0 x = Some e -> kind_of s0 e = Some KDefinition) ->
+  kind_of s0 n = Some KNetlist -> (forall t, top s0 n = Some t -> kind_of s0 t = Some KInstance) -> Closed s0 n ->
+  snd (fst (clone_netlist s0 n)) = None ->
+  exists M, NetStruct s0 n (fst (fst (clone_netlist s0 n))) (snd (clone_netlist s0 n)) M.
+Proof. intros. exists (netlist_memo s0 n). apply clone_netlist_struct_m; assumption. Qed.
+
 
 (* a decidable form of the closedness hypothesis *)
 Definition net_insts (s : state) (n : id) : list id :=
